@@ -461,7 +461,13 @@ class Translator:
             rt = CTYPE[ins.cls]
         ptypes = []
         args = []
-        for ty, v in ins.cargs:
+        for ai, (ty, v) in enumerate(ins.cargs):
+            if ty == "s" and ins.variadic_at is not None and ai >= ins.variadic_at:
+                # an `s` value in the variable part travels unpromoted in the low half of a vector register;
+                # C would silently promote a float here, which would hide a missing promotion in the IL
+                ptypes.append("double")
+                args.append("bits_d((uint64_t)s_bits(%s))" % self.val(v, "s", tmpcls))
+                continue
             if ty.startswith(":"):
                 ct = self.ctype_of(ty)
                 args.append("*(%s *)(uintptr_t)%s" % (ct, self.val(v, "l", tmpcls)))
